@@ -134,6 +134,8 @@ def _gen_saddle(rng, solver):
     nops = 1
     if solver in ('douglas_rachford', 'forward_backward'):
         nops = rng.randint(1, 2)
+        if solver == 'douglas_rachford' and rng.random() < 0.12:
+            nops = 0       # supported: min f alone, empty operator list
     if solver in ('proximal_gradient', 'accelerated_proximal_gradient'):
         nops = 0
     cfg['Ls'] = [P.gen_op(rng, cfg['X']) for _ in range(nops)]
@@ -424,7 +426,9 @@ class Saddle(object):
             self.tau = cfg['tau_frac'] * self.sigma / n ** 2
         elif s == 'douglas_rachford':
             m = len(self.Ls)
-            self.tau = 1.0 / sum(self.norms)
+            # (no operator: any tau > 0 is admissible)
+            self.tau = 1.0 / sum(self.norms) if m else \
+                float(cfg.get('sigma', 1.0))
             self.sigma = [cfg['tau_frac'] * 4.0 / (m * self.tau * n ** 2)
                           for n in self.norms]
         elif s == 'forward_backward':
@@ -950,7 +954,7 @@ def _liveness(plan, ctx):
     with seams.allocator('zero'):
         sp = Saddle(cfg, construct=False)
     s = sp.solver
-    default_steps = bool(cfg.get('default_steps'))
+    default_steps = bool(cfg.get('default_steps')) and bool(cfg.get('Ls'))
     eps = 1e-7
     x = sp.x0.copy()
     r_start = sp.residual(x, eps)
